@@ -23,7 +23,7 @@ func init() {
 		"os.OpenFile": "ModelOpenFile", "os.Open": "ModelOpen", "os.Create": "ModelCreate", "os.Stat": "ModelStat", "os.Lstat": "ModelStat",
 		"os.MkdirAll": "ModelMkdirAll", "os.Mkdir": "ModelMkdirAll", "os.ReadDir": "ModelReadDir", "os.RemoveAll": "ModelRemoveAll",
 		"os.Remove": "ModelRemove", "os.ReadFile": "ModelReadFile", "os.WriteFile": "ModelWriteFile", "os.IsNotExist": "ModelIsNotExist",
-		"os.IsExist": "ModelIsExist", "os.TempDir": "ModelOSTempDir", "os.Getenv": "ModelGetenv",
+		"os.IsExist": "ModelIsExist", "os.TempDir": "ModelOSTempDir", "os.Getenv": "ModelGetenv", "os.Setenv": "ModelSetenv",
 		"(*os.File).Read": "ModelFileRead", "(*os.File).Write": "ModelFileWrite", "(*os.File).WriteString": "ModelFileWriteString",
 		"(*os.File).ReadFrom": "ModelFileReadFrom", "(*os.File).Seek": "ModelFileSeek", "(*os.File).Truncate": "ModelFileTruncate",
 		"(*os.File).Close": "ModelFileClose", "(*os.File).Stat": "ModelFileStat", "(*os.File).Name": "ModelFileName", "(*os.File).Sync": "ModelFileSync",
@@ -184,6 +184,14 @@ func init() {
 	}
 	I["runtime.NumCPU"] = func(t *Thread, fn *ssa.Function, a []Value) Value { return MkBV(4, 64) }
 	I["github.com/pbnjay/memory.TotalMemory"] = func(t *Thread, fn *ssa.Function, a []Value) Value { return MkBV(8<<30, 64) }
+	I["crypto/rand.Read"] = func(t *Thread, fn *ssa.Function, a []Value) Value {
+		noteStub("crypto/rand.Read = arbitrary bytes")
+		sl := a[0].(*SliceVal)
+		for k := 0; k < sl.Len; k++ {
+			sl.Arr.Elem(sl.Off + k).V = t.ex.fresh("rnd", 8)
+		}
+		return Tuple{MkBV(uint64(sl.Len), 64), (*IfaceVal)(nil)}
+	}
 	I["math.Min"] = func(t *Thread, fn *ssa.Function, a []Value) Value {
 		x, y := a[0].(*Term), a[1].(*Term)
 		return Ite(RCmp(OpRLT, y, x), y, x)
